@@ -289,27 +289,49 @@ theorem foldl_specAdd_dedup (acc m : List Cert) : (dedupFp m).foldl specAdd acc 
 
 /-! ### AppendCertsFromPEM, Sum -/
 
-def pemCerts (bs : List (Option Cert)) : List Cert := bs.filterMap id
+/-- what one block contributes: the parsed certificate of a block that passes both `continue` tests -/
+def Block.accepted (b : Block) : Option Cert := if b.skipped then none else b.parsed
 
-theorem appendPEM_spec (bs : List (Option Cert)) (s : Pool) (h : Inv s) :
+/-- the certificates `AppendCertsFromPEM` hands to `AddCert`, in order -/
+def pemCerts (bs : List Block) : List Cert := bs.filterMap Block.accepted
+
+/-- `AppendCertsFromPEM` IS the sequence of `AddCert` calls on the accepted blocks, and its result is
+    "at least one block was accepted" -- for EVERY pool (no invariant needed) and EVERY block list. -/
+theorem appendPEM_eq_addCerts (bs : List Block) (s : Pool) :
+    appendCertsFromPEM s bs = ((pemCerts bs).foldl addCert s, !(pemCerts bs).isEmpty) := by
+  induction bs generalizing s with
+  | nil => rfl
+  | cons b bs ih =>
+    unfold appendCertsFromPEM
+    by_cases hs : b.skipped = true
+    · have : pemCerts (b :: bs) = pemCerts bs := by simp [pemCerts, Block.accepted, hs]
+      simp only [hs, if_true, this]; exact ih s
+    · cases hp : b.parsed with
+      | none =>
+        have : pemCerts (b :: bs) = pemCerts bs := by simp [pemCerts, Block.accepted, hs, hp]
+        simp only [hs, this]; exact ih s
+      | some c =>
+        have : pemCerts (b :: bs) = c :: pemCerts bs := by simp [pemCerts, Block.accepted, hs, hp]
+        simp only [hs, this, ih (addCert s c), List.foldl_cons, List.isEmpty_cons, Bool.not_false]
+        trivial
+
+theorem any_accepted (bs : List Block) :
+    bs.any (fun b => !b.skipped && b.parsed.isSome) = !(pemCerts bs).isEmpty := by
+  induction bs with
+  | nil => rfl
+  | cons b bs ih =>
+    simp only [List.any_cons, ih, pemCerts, List.filterMap_cons, Block.accepted]
+    by_cases hs : b.skipped = true
+    · simp [hs]
+    · cases b.parsed <;> simp [hs]
+
+theorem appendPEM_spec (bs : List Block) (s : Pool) (h : Inv s) :
     (appendCertsFromPEM s bs).1.certs = (pemCerts bs).foldl specAdd s.certs ∧
     Inv (appendCertsFromPEM s bs).1 ∧
-    (appendCertsFromPEM s bs).2 = bs.any Option.isSome := by
-  induction bs generalizing s with
-  | nil => exact ⟨rfl, h, rfl⟩
-  | cons b bs ih =>
-    cases b with
-    | none =>
-      simp only [appendCertsFromPEM, pemCerts, List.filterMap_cons, id, List.any_cons, Option.isSome_none,
-        Bool.false_or]
-      exact ih s h
-    | some c =>
-      have a := addCert_spec s c h
-      have := ih (addCert s c) a.2
-      simp only [appendCertsFromPEM, pemCerts, List.filterMap_cons, id, List.foldl_cons, List.any_cons,
-        Option.isSome_some, Bool.true_or, and_true]
-      rw [← a.1]
-      exact ⟨this.1, this.2.1⟩
+    (appendCertsFromPEM s bs).2 = !(pemCerts bs).isEmpty := by
+  rw [appendPEM_eq_addCerts]
+  have := foldl_addCert_spec (pemCerts bs) s h
+  exact ⟨this.1, this.2, rfl⟩
 
 def optCerts : Option Pool → List Cert
   | none => []
@@ -350,7 +372,7 @@ theorem parentsLoop_spec (chk : Cert → Cert → Bool) (certs : List Cert) (cer
     simp only [hx]
     by_cases hk : chk cert x = true
     · simp only [hk, if_true]
-      obtain ⟨res, e, m⟩ := ih { acc with parents := acc.parents ++ [c], errNil := true } hc'
+      obtain ⟨res, e, m⟩ := ih { acc with parents := acc.parents ++ [c], errNil := true, valid := true } hc'
       refine ⟨res, e, ?_⟩
       intro i
       rw [m i]
@@ -378,5 +400,23 @@ theorem parentsLoop_spec (chk : Cert → Cert → Bool) (certs : List Cert) (cer
         · exact Or.inl h
         · subst h; rw [hx] at hy; cases hy; exact absurd hky hk
         · exact Or.inr ⟨h, y, hy, hky⟩
+
+/-- the `ValidSignature` side effect: after the loop the child's flag is its old value OR "a parent was found". -/
+theorem parentsLoop_valid (chk : Cert → Cert → Bool) (certs : List Cert) (cert : Cert) (v0 : Bool) (cands : List Nat)
+    (acc res : Parents) (ha : acc.valid = (v0 || !acc.parents.isEmpty))
+    (h : parentsLoop chk certs cert acc cands = .ok res) : res.valid = (v0 || !res.parents.isEmpty) := by
+  induction cands generalizing acc with
+  | nil => simp only [parentsLoop, Res.ok.injEq] at h; rw [← h]; exact ha
+  | cons c cs ih =>
+    unfold parentsLoop at h
+    cases hx : certs[c]? with
+    | none => simp [hx] at h
+    | some x =>
+      simp only [hx] at h
+      by_cases hk : chk cert x = true
+      · simp only [hk, if_true] at h
+        exact ih _ (by simp) h
+      · simp only [hk, Bool.false_eq_true, if_false] at h
+        exact ih { acc with errCert := some x, errNil := false } ha h
 
 end ZV.C08
